@@ -9,8 +9,8 @@ import sys
 import time
 
 VERIF = os.environ.get("VERIF_ROOT", "/verif")
-EVIDENCE_DIR = os.path.join(VERIF, "evidence")
-REPLAY_DIR = os.path.join(VERIF, "replays")
+EVIDENCE_DIR = os.environ.get("VERIF_EVIDENCE_DIR", os.path.join(VERIF, "evidence"))   # overridden by the seeded-change runner
+REPLAY_DIR = os.environ.get("VERIF_REPLAY_DIR", os.path.join(VERIF, "replays"))
 KNOWN_FILE = os.path.join(VERIF, "known_findings.json")
 
 
